@@ -29,6 +29,67 @@ def exported_classes(prog, packages):
     return out
 
 
+def call_args(prog, rec):
+    """{parameter name: argument term} of a call record, bound through the
+    callee's signature when the callee is a function of the repository (the
+    receiver of a method is bound to its first parameter); for other callees the
+    keywords by name and the positionals by index.  f(a, b), f(a, y=b) and
+    f(x=a, y=b) give the same dictionary."""
+    out = {}
+    try:
+        fd = prog.func(rec['name'])
+        names = [a.arg for a in fd.args.posonlyargs + fd.args.args]
+    except Exception:
+        names = []
+    for i, a in enumerate(rec['args']):
+        out[names[i] if i < len(names) else i] = a
+    for k, v in rec['kwargs']:
+        out[k] = v
+    return out
+
+
+def term_args(prog, t):
+    """call_args for an uninlined call term ('call', qualified name, pos, kws)"""
+    if t[0] != 'call':
+        return {}
+    return call_args(prog, dict(name=t[1] if isinstance(t[1], str) else '',
+                                args=t[2], kwargs=t[3]))
+
+
+def canon_call(prog, qual, pos, kws=(), skip=0):
+    """the call term the evaluator builds for qual(*pos, **kws): keywords naming
+    the next positional parameters sit in their slots (Interp._bind_leading)"""
+    pos, kws = list(pos), dict(kws)
+    try:
+        fd = prog.func(qual)
+        names = [a.arg for a in fd.args.args][skip:]
+    except Exception:
+        names = []
+    while len(pos) < len(names) and names[len(pos)] in kws:
+        pos.append(kws.pop(names[len(pos)]))
+    return intern(('call', qual, tuple(pos), tuple(sorted(kws.items()))))
+
+
+def method_term_args(prog, cq, t):
+    """call_args for an uninlined method call term
+    ('call', ('attr', receiver, name), pos, kws) on an instance of class cq
+    (receiver excluded)"""
+    if t[0] != 'call' or not isinstance(t[1], tuple) or t[1][0] != 'attr':
+        return {}
+    hit = prog.lookup(cq, t[1][2])
+    names = [a.arg for a in hit[2].args.args][1:] if hit and hit[0] == 'method' else []
+    out = {}
+    for i, a in enumerate(t[2]):
+        out[names[i] if i < len(names) else i] = a
+    for k, v in t[3]:
+        out[k] = v
+    return out
+
+
+def call_arg(prog, rec, name, default=None):
+    return call_args(prog, rec).get(name, default)
+
+
 def init_of(prog, cq):
     hit = prog.lookup(cq, '__init__')
     if not hit or hit[0] != 'method':
